@@ -35,8 +35,8 @@ func isMutatorCall(ins ssa.Instruction) (string, bool) {
 }
 
 func checkC02(p *core.Prog, r *core.Report) {
-	r.Explanation = "Decides structural necessary conditions of owner-only release and exact depth: (R1) in UnLock the hold that is tombstoned, decremented and removed is on every path the non-nil result of GetLockedLock(request) or, only under the unlock-first flag, the manager's oldest holder; (R2) every refusal reply of Lock/UnLock (UNLOCK_ERROR, UNOWN_ERROR, LOCK_ACK_WAITING, STATE_ERROR, TIMEOUT, and LOCKED_ERROR without the update flag) is reached without any engine mutation on its path (stores to hold/queue/value state, mutator calls) - the cancel-wait hand-over excepted; (R3) UnLock's success paths lower the key's depth exactly once, by 1 only under Rcount>0 with depth>1 (no removal unless the depth reaches 0) or when the depth is <=1, otherwise by the hold's whole depth, with exactly one RemoveLock; (R4) every path to the re-entrant depth increment in Lock carries the guards owner-found, not ack-pending, depth<0xff, depth<=Rcount, not priority-flagged, Expried!=0; (R5) cancelWaitLock answers the canceller LOCKED_ERROR and the cancelled waiter UNLOCK_ERROR, and the not-found path UNLOCK_ERROR. (R6) LockManager.RemoveLock keeps the LockId index of the holder list in step: a hold promoted to oldest holder, and a released non-oldest hold, are deleted from the index on the same path (the index lookup has no liveness test). (R7) cancelWaitLock selects a queue entry only on the not-answered side of a test of that entry's timeouted flag (an answered entry with the same LockId must not shadow the live request behind it). NOT decided: that the holder containers otherwise return the matching hold (inline slice vs map-backed queue), arithmetic beyond the guards."
-	r.Assumptions = []string{"Go type checker and go/ssa are correct for /repo", "GetLockedLock / LockManagerLockQueue.GetLock return a hold with the requested LockId (container behaviour, C20 not claimed)"}
+	r.Explanation = "Decides structural necessary conditions of owner-only release and exact depth: (R1) in UnLock the hold that is tombstoned, decremented and removed is on every path the non-nil result of GetLockedLock(request) or, only under the unlock-first flag, the manager's oldest holder; (R2) every refusal reply of Lock/UnLock (UNLOCK_ERROR, UNOWN_ERROR, LOCK_ACK_WAITING, STATE_ERROR, TIMEOUT, and LOCKED_ERROR without the update flag) is reached without any engine mutation on its path (stores to hold/queue/value state, mutator calls) - the cancel-wait hand-over excepted; (R3) UnLock's success paths lower the key's depth exactly once, by 1 only under Rcount>0 with depth>1 (no removal unless the depth reaches 0) or when the depth is <=1, otherwise by the hold's whole depth, with exactly one RemoveLock; (R4) every path to the re-entrant depth increment in Lock carries the guards owner-found, not ack-pending, depth<0xff, depth<=Rcount, not priority-flagged, Expried!=0; (R5) cancelWaitLock answers the canceller LOCKED_ERROR and the cancelled waiter UNLOCK_ERROR, and the not-found path UNLOCK_ERROR. (R6) LockManager.RemoveLock keeps the LockId index of the holder list in step: a hold promoted to oldest holder, and a released non-oldest hold, are deleted from the index on the same path (the index lookup has no liveness test). (R7) cancelWaitLock selects a queue entry only on the not-answered side of a test of that entry's timeouted flag (an answered entry with the same LockId must not shadow the live request behind it). (R8) the holder lookup by LockId returns from the inline slice only a live entry (depth > 0) with the requested id, from the overflow index only its lookup by that id, and answers \"not a holder\" only after examining both. NOT decided: that the two parts of the holder list together contain exactly the holders (maintenance of the containers), arithmetic beyond the guards."
+	r.Assumptions = []string{"Go type checker and go/ssa are correct for /repo", "the holder list (inline slice + overflow index) contains exactly the current holders (container maintenance, beyond R6/R8)"}
 	c02R1(p, r)
 	c02R2(p, r)
 	c02R3(p, r)
@@ -44,6 +44,7 @@ func checkC02(p *core.Prog, r *core.Report) {
 	c02R5(p, r)
 	c02R6(p, r)
 	c02R7(p, r)
+	c02R8(p, r)
 }
 
 func c02R1(p *core.Prog, r *core.Report) {
@@ -560,5 +561,86 @@ func c02R7(p *core.Prog, r *core.Report) {
 	}
 	if n == 0 {
 		r.Violate(rule, "server.(*LockDB).cancelWaitLock: candidate assignment", p.Pos(fn.Pos()), "no selection of a wait-queue entry found in cancelWaitLock", nil)
+	}
+}
+
+// c02R8: the holder lookup by LockId (LockManagerLockQueue.GetLock, behind
+// GetLockedLock) answers for the whole holder list: the inline slice and the
+// map-backed overflow. Ownership is exact only if a hit is a live entry with
+// the requested id and a miss has looked at both parts.
+func c02R8(p *core.Prog, r *core.Report) {
+	const rule = "C02/R8"
+	r.Rule(rule, "holder lookup by LockId: a hit from the inline slice is a live entry (depth > 0) with the requested id, a hit from the overflow index is its lookup by that id, and a miss has scanned the inline slice to its end (or found it absent) and missed in the index (or found it absent)", 3)
+	fn := mustFunc(p, r, "server.(*LockManagerLockQueue).GetLock")
+	if fn == nil {
+		return
+	}
+	self, cmd := fn.Params[0].Name(), fn.Params[1].Name()
+	name := "server.(*LockManagerLockQueue).GetLock"
+	ex := core.NewExplorer(p, core.Hooks{
+		Track: func(x *core.X, a core.Atom) bool { return true },
+		Exit: func(x *core.X, rets []core.Expr) {
+			if len(rets) != 1 {
+				return
+			}
+			ret := core.Plain(rets[0].S)
+			hist := map[string]bool{}
+			for h := range x.St.Hist {
+				hist[core.Plain(h)] = true
+			}
+			has := func(pred func(string) bool) bool {
+				for h := range hist {
+					if pred(h) {
+						return true
+					}
+				}
+				return false
+			}
+			switch {
+			case ret == "nil":
+				sliceDone := hist[self+".fastQueue == nil"] || has(func(h string) bool {
+					return strings.HasPrefix(h, "len("+self+".fastQueue") && strings.Contains(h, " <= ")
+				})
+				indexDone := hist[self+".scaleQueue == nil"] || has(func(h string) bool {
+					return strings.Contains(h, self+".scaleQueue.maps[") && strings.HasSuffix(h, " == false")
+				})
+				key := name + ": miss"
+				switch {
+				case !sliceDone:
+					r.Violate(rule, key, x.Pos(), "\"not a holder\" is answered on a path that has not scanned the inline slice of holders to its end: a holder stored there is not found by its own id (its unlock is refused, its repeated lock is granted as a second hold)", x.St.Trace)
+				case !indexDone:
+					r.Violate(rule, key, x.Pos(), "\"not a holder\" is answered on a path that has not looked the id up in the overflow index of holders", x.St.Trace)
+				default:
+					r.Hold(rule, key, x.Pos(), "both parts of the holder list examined")
+				}
+			case strings.Contains(ret, ".scaleQueue.maps["):
+				key := name + ": hit in the overflow index"
+				if strings.Contains(ret, ".maps["+cmd+".LockId]") && has(func(h string) bool {
+					return strings.Contains(h, self+".scaleQueue.maps["+cmd+".LockId]") && strings.HasSuffix(h, " == true")
+				}) {
+					r.Hold(rule, key, x.Pos(), "lookup by the requested id succeeded")
+				} else {
+					r.Violate(rule, key, x.Pos(), "an index entry is returned that is not the successful lookup of the requested LockId", x.St.Trace)
+				}
+			case strings.Contains(ret, ".fastQueue"):
+				key := name + ": hit in the inline slice"
+				live := hist["0 < "+ret+".locked"] || hist[ret+".locked != 0"]
+				same := hist[cmd+".LockId == "+ret+".command.LockId"] || hist[ret+".command.LockId == "+cmd+".LockId"]
+				switch {
+				case !same:
+					r.Violate(rule, key, x.Pos(), "an entry of the inline slice is returned without its LockId having been compared equal to the requested one", x.St.Trace)
+				case !live:
+					r.Violate(rule, key, x.Pos(), "an entry of the inline slice is returned without testing that it is still held (depth > 0): released entries stay in the slice until they reach its head, so a released id is taken for a current holder (its next lock is granted as a re-entry past the admission test, its repeated unlock lowers the depth twice)", x.St.Trace)
+				default:
+					r.Hold(rule, key, x.Pos(), "live entry with the requested id")
+				}
+			default:
+				r.Violate(rule, name+": result", x.Pos(), "the lookup returns "+ret+", which is neither an entry of the holder list nor nil", x.St.Trace)
+			}
+		},
+	})
+	ex.Run(fn, nil)
+	if ex.Imprecise != "" {
+		r.Fail("C02/R8: %s", ex.Imprecise)
 	}
 }
